@@ -506,7 +506,8 @@ class ObjModel:
     """
 
     def __init__(self, name, cls=None, fields=None, hasattr=None, invariant=None, order_key=None,
-                 isinstance=None):
+                 isinstance=None, setters=None):
+        self.setters = setters or {}
         self.order_key = order_key
         self.isinstance = isinstance
         self.name = name
